@@ -567,3 +567,36 @@ func fieldAccesses(fn *ssa.Function, typSuffix, field string, withAnon bool) []s
 	})
 	return out
 }
+
+// staticReach: functions reachable from roots through statically resolved calls (direct calls, calls of closures
+// created in place), restricted to functions of packages whose path ends in pkgSuffix ("" = any with a body).
+func staticReach(roots []*ssa.Function, pkgSuffix string) map[*ssa.Function]bool {
+	seen := map[*ssa.Function]bool{}
+	work := append([]*ssa.Function(nil), roots...)
+	for len(work) > 0 {
+		f := work[len(work)-1]
+		work = work[:len(work)-1]
+		if f == nil || seen[f] || f.Blocks == nil {
+			continue
+		}
+		if pkgSuffix != "" && (f.Pkg == nil || !strings.HasSuffix(f.Pkg.Pkg.Path(), pkgSuffix)) {
+			if f.Parent() == nil {
+				continue
+			}
+		}
+		seen[f] = true
+		for _, b := range f.Blocks {
+			for _, in := range b.Instrs {
+				if ci, ok := in.(ssa.CallInstruction); ok {
+					if _, isGo := in.(*ssa.Go); isGo {
+						continue
+					}
+					if callee := ci.Common().StaticCallee(); callee != nil {
+						work = append(work, callee)
+					}
+				}
+			}
+		}
+	}
+	return seen
+}
